@@ -85,7 +85,8 @@ fn resolve_spec(r: &RawSpec) -> TxSpec {
 		.collect();
 	let total: u128 = outputs.iter().map(|o| o.amount as u128).sum::<u128>() + kernels.iter().map(|k| k.fee as u128).sum::<u128>();
 	// inputs: n-1 small random amounts and the remainder
-	let n_in = r.n_in.max(1) as usize;
+	// every input carries at least 1: no more inputs than there is value to spread
+	let n_in = (r.n_in.max(1) as u128).min(total.max(1)) as usize;
 	let mut inputs = vec![];
 	let mut left = total;
 	for i in 0..n_in {
@@ -96,11 +97,23 @@ fn resolve_spec(r: &RawSpec) -> TxSpec {
 			a.min(left - (n_in - i - 1) as u128).max(1)
 		};
 		left -= amt;
-		inputs.push(OutRef {
-			amount: amt as u64,
-			key: 300 + i as u32,
-			cb: false,
-		});
+		// outputs near u64::MAX plus fees can exceed what one input can carry: spill into further inputs
+		let mut amt = amt;
+		while amt > u64::MAX as u128 {
+			inputs.push(OutRef {
+				amount: u64::MAX,
+				key: 340 + inputs.len() as u32,
+				cb: false,
+			});
+			amt -= u64::MAX as u128;
+		}
+		if amt > 0 {
+			inputs.push(OutRef {
+				amount: amt as u64,
+				key: 300 + i as u32,
+				cb: false,
+			});
+		}
 	}
 	TxSpec {
 		inputs,
